@@ -2157,3 +2157,54 @@ def _r1_12(rep):
 
 
 RULES.rule("R1.12", "\"this typedef is not generated\" is decided from emitted names at both sites", floor=2)(_r1_12)
+
+
+# =====================================================================================================
+# R1.13
+# =====================================================================================================
+def _norm_some(f):
+    """`let Some(_) = x` and `x.is_some()` are the same atom."""
+    if f[0] == "atom":
+        m = re.match(r"let std::prelude::v1::Some\(_\w*\) = (.+)$", f[1])
+        if m:
+            return ("atom", "std::option::Option::<T>::is_some(%s)" % m.group(1))
+        return f
+    return (f[0],) + tuple(_norm_some(x) if isinstance(x, tuple) else x for x in f[1:])
+
+
+@RULES.rule("R1.13", "a record never gets both `repr(packed)` and `repr(align)`", floor=1)
+def r1_13(rep):
+    """rustc rejects a type carrying both hints (E0587).  CompInfo::codegen pushes `#[repr(C, packed)]` at one site and
+    `#[repr(align(N))]` at another; the two reach conditions must be mutually exclusive.  They are decided by a truth table over
+    the atoms of both conditions (`let Some(_) = explicit_align` and `explicit_align.is_some()` are one atom)."""
+    import itertools
+    import c08
+    prog = rep.prog
+    b = rep.need(prog.impl_fn("codegen::CodeGenerator", "ir::comp::CompInfo", "codegen"), "<CompInfo as CodeGenerator>::codegen")
+    packed = [c for c in b.calls(lambda n: "attributes::repr_list" in (n.get("callee") or "")) if "packed" in b.canon(c, 8)]
+    for s in qq.quote_sites(b):
+        if s.has("repr", "(", "packed") or s.has("C", ",", "packed"):
+            packed.append(s.root)
+    aligns = [s for s in qq.quote_sites(b) if s.has("repr", "(", "align")]
+    aligns_n = [s.root for s in aligns] + [c for c in b.calls(lambda n: "attributes::repr" in (n.get("callee") or "")) if "align" in b.canon(c, 8)]
+    rep.need(packed and aligns_n, "the packed and align attribute sites of CompInfo::codegen")
+    rep.note("sites", "%d packed site(s), %d align site(s)" % (len(packed), len(aligns_n)))
+    for p in packed:
+        fp = _norm_some(c08._reach(b, p))
+        for a in aligns_n:
+            fa = _norm_some(c08._reach(b, a))
+            atoms = sorted(c08._atoms(fp, set()) | c08._atoms(fa, set()))
+            if len(atoms) > 16:
+                rep.bad("packed-with-align@CompInfo::codegen", "conditions too large to decide (%d atoms)" % len(atoms), b.loc(a))
+                continue
+            wit = None
+            for vals in itertools.product((False, True), repeat=len(atoms)):
+                env = dict(zip(atoms, vals))
+                if c08._ev(fp, env) and c08._ev(fa, env):
+                    wit = env
+                    break
+            rep.check(wit is None, "packed-with-align@CompInfo::codegen",
+                      "the packed and the align attribute exclude each other" if wit is None else
+                      "both `repr(C, packed)` and `repr(align(N))` are pushed when " +
+                      " and ".join(("" if v else "not ") + k.split("::")[-1][:60] for k, v in wit.items()) +
+                      " (rustc: E0587); `struct __attribute__((packed, aligned(8))) { char c; int i; }` is such a record", b.loc(a))
